@@ -51,7 +51,7 @@ ASSUMPTIONS = ['no reconfiguration of the lexer concurrently with calls (reconfi
                'user code does not mutate the package tables (keywords.KEYWORDS..., SQL_REGEX) or token types']
 
 FORMAT_OPTS = [{}, {'reindent': True}, {'keyword_case': 'upper'}, {'identifier_case': 'upper', 'strip_comments': True},
-               {'reindent_aligned': True}, {'strip_whitespace': True, 'use_space_around_operators': True},
+               {'reindent_aligned': True}, {'reindent_aligned': True}, {'strip_whitespace': True, 'use_space_around_operators': True},
                {'output_format': 'python'}, {'truncate_strings': 4}, {'reindent': True, 'comma_first': True, 'wrap_after': 10},
                {'right_margin': 30}]
 BAD_OPTS = [{'keyword_case': 'x'}, {'indent_width': -1}, {'output_format': 3}, {'truncate_strings': 'a'}, {'reindent': 2},
@@ -136,7 +136,7 @@ def gen_history(rng, texts):
         elif k < 0.60:
             h.append(['stream', rng.choice(texts), rng.choice([0, 0, 1, 1, 2, 3]), rng.random() < 0.5])
         elif k < 0.68:
-            h.append(['raise_in_gen', rng.choice(['deepfmt', 'badtype', 'latin', 'deep'])])
+            h.append(['raise_in_gen', rng.choice(['deepfmt', 'badtype', 'latin', 'deep', 'deepaligned', 'alignedcase', 'deepreindent'])])
         elif k < 0.74:
             h.append(['clear'])
         elif k < 0.79:
